@@ -30,7 +30,7 @@ CLAIM = {
             "top-level info table; (R04.6) tiny_v2_diff::read stores the line's action as info and the comment action into the javadoc of "
             "the same level on all four levels (one comment only), MappingsDiff::diff fills info/javadoc/children from the same level; "
             "(R04.7) NodeInfo::new of the 9 node types stores info with no javadoc and empty children, FromKey::from_key puts the key's name "
-            "into the first namespace only, mappings_diff::add_child refuses a duplicate key. Also: every successful return of change_name is dominated by the old-value check (no early Ok); the generated diff is returned unpruned or pruned by a predicate over info, javadoc and every child map; tiny_v2_diff::read hands the physical line to the tokeniser verbatim (closure, nested fn item or private helper). Normal forms: `while let Some(p) = it.next()` is the `for` loop it desugars from; the `match (a, b)` of TinyLine::action may live in a private helper that is inlined; further parameters of gen_diff_names / gen_diff_javadoc stand for the one constant every call site of the crate passes.",
+            "into the first namespace only, mappings_diff::add_child refuses a duplicate key. Also: the public wrapper quill::apply_diff_option is the internal function on every path (no successful exit before the delegation); every successful return of change_name is dominated by the old-value check (no early Ok); the generated diff is returned unpruned or pruned by a predicate over info, javadoc and every child map; tiny_v2_diff::read hands the physical line to the tokeniser verbatim (closure, nested fn item or private helper). Normal forms: `while let Some(p) = it.next()` is the `for` loop it desugars from; the `match (a, b)` of TinyLine::action may live in a private helper that is inlined; further parameters of gen_diff_names / gen_diff_javadoc stand for the one constant every call site of the crate passes.",
     "note": "Not decided: apply(diff(A,B),A) = B for all A,B, equality through the textual .tinydiff form (there is no tinydiff writer "
             "in the tree), atomicity of refusal beyond the local result map, IndexMap ordering effects of swap_remove. "
             "Trusted: rustc HIR/typeck/const-eval; spec/c04_tables.json (transcribed from the property statement and doc comments).",
